@@ -60,6 +60,34 @@ def run_threaded(mod, shard, out_path, n):
     return res
 
 
+def bait_probe(pid, res):
+    """The working directory of this process holds iban_registry/ and bank_registry/ folders with a country ZZ, a
+    shortened DE and a bank DE/99999999: none of that may have reached the library."""
+    from vf import judge  # noqa: PLC0415
+    from vf.lib import observe  # noqa: PLC0415
+
+    S = judge.lib()
+    found = []
+    o = observe(S.IBAN, "ZZ211234")
+    if o.ok:
+        found.append(["IBAN('ZZ211234') accepted", o.brief()])
+    o = observe(S.IBAN, "DE89370400440532013000")
+    if not o.ok and o.is_a("InvalidLength"):
+        found.append(["IBAN('DE89370400440532013000') rejected for its length (the bait shortens DE)", o.brief()])
+    o = observe(S.BIC.from_bank_code, "DE", "99999999")
+    if o.ok:
+        found.append(["BIC.from_bank_code('DE', '99999999') found a bank", o.brief()])
+    o = observe(lambda: S.IBAN("DE89370400440532013000").bic)
+    if o.ok and str(o.value) == "BAITDEFFXXX":
+        found.append(["bic of an IBAN taken from the bait file", o.brief()])
+    res["evaluations"] = res.get("evaluations", 0) + 4
+    res.setdefault("tallies", {})["working_directory_bait_probes"] = 4
+    if found:
+        res.setdefault("viol_count", {})["files_in_the_working_directory_reach_the_library"] = len(found)
+        res.setdefault("violations", []).append({"property": pid, "mechanism": "files_in_the_working_directory_reach_the_library", "witness": {"cwd": "iban_registry/zz_site.json, bank_registry/zz_site.json (also under schwifty_data/, .schwifty/)", "observed": found},
+                                                 "expected": "only the package's own registry directories are read", "observed": found[0][0]})
+
+
 def variant_import_failure(pid, shard, out_path):
     """A copy of an ordinary shard under another interpreter configuration: the package must import there as
     it does in the ordinary shards (the orchestrator keeps this verdict only when those did import it)."""
@@ -120,6 +148,13 @@ def main():
         shard = json.load(fp)
     if shard.get("_clock_years"):
         shift_clock(float(shard["_clock_years"]))
+    if shard.get("_logging"):
+        # an application that has switched on verbose logging for everything
+        import io  # noqa: PLC0415
+        import logging  # noqa: PLC0415
+
+        logging.basicConfig(level=getattr(logging, shard["_logging"]), stream=io.StringIO(), force=True)
+        logging.raiseExceptions = True
     faulthandler.enable()
     wd = float(shard.get("_watchdog_s", 0) or 0)
     if wd:
@@ -147,6 +182,8 @@ def main():
                     res = run_threaded(mod, shard, out_path, int(shard["_threads"]))
                 else:
                     res = mod.run_shard(shard, out_path)
+                if shard.get("_cwd") == "bait":
+                    bait_probe(pid, res)
         finally:
             if reach is not None:
                 reach.stop()
